@@ -196,8 +196,8 @@ type c18Time struct {
 }
 
 type c18Mut struct {
-	Cat    string // "", "byte", "swap-sig", "wrong-key-named", "raw-resign", "authority-text", "sign-key-text"
-	Op     int    // byte: 0 flip bit, 1 set byte, 2 insert byte, 3 delete byte
+	Cat    string // "", "byte", "sig-octet", "swap-sig", "wrong-key-named", "raw-resign", "authority-text", "sign-key-text"
+	Op     int    // byte: 0 flip bit, 1 set byte, 2 insert byte, 3 delete byte; sig-octet: 0 set octet Pos of the decoded signature to Val, 1 rewrite the bit count of the RSA value keeping its octet count, 2 set the packet length octet to Val
 	Region int    // byte: 0 signed content, 1 signature field, 2 anywhere
 	Pos    int    // byte: offset modulo region length
 	Val    int    // byte: bit number / byte value
@@ -422,7 +422,8 @@ func c18SigBytes(field []byte) ([]byte, bool) {
 // that differ only in framing octets which carry no signature field:
 //
 //	"length-octet"  the packet length octet of b overstates the real length
-//	                (still a one-octet length), everything else identical
+//	                (as a one-octet length, or as a partial-length first chunk
+//	                that spans the whole packet), everything else identical
 //	"mpi-bitcount"  the two-octet bit count in front of the RSA value differs
 //	                but stands for the same number of value octets
 //
@@ -440,8 +441,17 @@ func c18Framing(a, b []byte) string {
 			diff = append(diff, i)
 		}
 	}
-	if len(diff) == 1 && diff[0] == 2 && b[2] > a[2] && b[2] < 192 {
-		return "length-octet"
+	if len(diff) == 1 && diff[0] == 2 {
+		// declared length larger than the packet: either still a one-octet
+		// length, or a "partial body length" octet (224..254) whose first
+		// chunk 1<<(octet&0x1f) already spans the whole packet
+		if b[2] < 192 && b[2] > a[2] {
+			return "length-octet"
+		}
+		if b[2] >= 224 && b[2] < 255 && 1<<(b[2]&0x1f) >= int(a[2]) {
+			return "length-octet"
+		}
+		return ""
 	}
 	p := 3 + 4 // version, type, pubkey algo, hash algo
 	if p+2 > len(a) {
@@ -468,6 +478,47 @@ func c18Framing(a, b []byte) string {
 	return "mpi-bitcount"
 }
 
+// c18BitCountOffset finds the two-octet bit count in front of the RSA value
+// of a decoded signature as snapd writes it (see c18Framing), or -1.
+func c18BitCountOffset(a []byte) int {
+	if len(a) < 12 || a[0] != 1 || a[1] != 0xC2 || int(a[2]) != len(a)-3 || a[2] >= 192 || a[3] != 4 {
+		return -1
+	}
+	p := 3 + 4
+	p += 2 + (int(a[p])<<8 | int(a[p+1]))
+	if p+2 > len(a) {
+		return -1
+	}
+	p += 2 + (int(a[p])<<8 | int(a[p+1]))
+	p += 2
+	if p+2 > len(a) || ((int(a[p])<<8|int(a[p+1]))+7)/8 != len(a)-p-2 {
+		return -1
+	}
+	return p
+}
+
+func c18MutateSig(sig []byte, m c18Mut) []byte {
+	out := append([]byte{}, sig...)
+	switch m.Op {
+	case 1:
+		if p := c18BitCountOffset(sig); p >= 0 {
+			octets := len(sig) - p - 2
+			bits := 8*(octets-1) + 1 + m.Val%8
+			if bits == int(sig[p])<<8|int(sig[p+1]) {
+				bits = 8*(octets-1) + 1 + (m.Val+1)%8
+			}
+			out[p], out[p+1] = byte(bits>>8), byte(bits)
+			return out
+		}
+		fallthrough
+	case 0:
+		out[int(uint64(m.Pos)*2654435761%uint64(len(out)))] = byte(m.Val)
+	default:
+		out[2] = byte(m.Val)
+	}
+	return out
+}
+
 func c18Mutate(enc []byte, contentLen int, m c18Mut) []byte {
 	lo, hi := 0, len(enc)
 	switch m.Region {
@@ -479,7 +530,9 @@ func c18Mutate(enc []byte, contentLen int, m c18Mut) []byte {
 	if hi <= lo {
 		return enc
 	}
-	pos := lo + m.Pos%(hi-lo)
+	// spread the generated offset over the whole region (rapid favours small
+	// integers, which would pile all mutations onto the first header line)
+	pos := lo + int(uint64(m.Pos)*2654435761%uint64(hi-lo))
 	out := make([]byte, 0, len(enc)+1)
 	switch m.Op {
 	case 0:
@@ -699,8 +752,16 @@ func c18Run(c c18Case) (verifkit.Outcome, error) {
 		o.NonTrivial = true
 		return o, c18MustReject(db, a, c.Mut.Cat+" changed after signing")
 
-	case "byte":
-		mut := c18Mutate(enc, len(content), c.Mut)
+	case "byte", "sig-octet":
+		var mut []byte
+		if c.Mut.Cat == "byte" {
+			mut = c18Mutate(enc, len(content), c.Mut)
+		} else {
+			// change one octet of the *decoded* signature and spell it again
+			// canonically
+			mut = vuJoin(content, vuEncodeSig(c18MutateSig(origSig, c.Mut)))
+			o.Labels = append(o.Labels, "sig-octet")
+		}
 		if bytes.Equal(mut, enc) {
 			a, err := asserts.Decode(enc)
 			if err != nil {
@@ -755,13 +816,38 @@ func c18Run(c c18Case) (verifkit.Outcome, error) {
 
 var (
 	c18ValidNow = []c18Time{{0, 0}, {0, 1}, {0, int64(time.Second)}, {2, 0}, {2, 12345}, {1, -1}, {1, -int64(time.Second)}, {1, -int64(24 * time.Hour)}}
-	c18AnyNow   = []c18Time{{0, -1}, {0, -int64(time.Second)}, {0, -int64(400 * 24 * time.Hour)}, {1, 0}, {1, 1}, {1, int64(time.Second)}, {1, int64(400 * 24 * time.Hour)}, {0, 0}, {2, 0}, {1, -1}}
+	c18EarlyNow = []c18Time{{0, -1}, {0, -int64(time.Second)}, {0, -int64(400 * 24 * time.Hour)}}
+	c18LateNow  = []c18Time{{1, 0}, {1, 1}, {1, int64(time.Second)}, {1, int64(400 * 24 * time.Hour)}}
 	c18ValidTs  = []c18Time{{0, 0}, {0, int64(time.Second)}, {0, 500}, {2, 0}, {2, int64(time.Second) * 3600}, {1, -int64(time.Second)}, {1, -1}}
-	c18AnyTs    = []c18Time{{0, -int64(time.Second)}, {0, -1}, {0, -int64(400 * 24 * time.Hour)}, {1, 0}, {1, int64(time.Second)}, {1, int64(400 * 24 * time.Hour)}, {0, 0}, {1, -int64(time.Second)}}
+	c18EarlyTs  = []c18Time{{0, -int64(time.Second)}, {0, -1}, {0, -int64(400 * 24 * time.Hour)}}
+	c18LateTs   = []c18Time{{1, 0}, {1, int64(time.Second)}, {1, int64(400 * 24 * time.Hour)}}
 )
+
+// c18Windowed moves most cases onto a key with a bounded validity window.
+func c18Windowed(t *rapid.T, c *c18Case) {
+	if rapid.IntRange(0, 2).Draw(t, "windowed") == 0 {
+		return
+	}
+	if c18Kinds[c.Kind].canonicalOnly || rapid.Bool().Draw(t, "w3") {
+		c.Signer = 3
+	} else {
+		c.Signer = 5
+	}
+}
+
+// c18BadTime picks a position outside the signer key's validity: before
+// since, or (bounded keys only) at/after until.
+func c18BadTime(t *rapid.T, c *c18Case, early, late []c18Time, lateOnly bool) c18Time {
+	bounded := !c18Facts[c18Signers[c.Signer].key].until.IsZero()
+	if bounded && (lateOnly || rapid.Bool().Draw(t, "late")) {
+		return rapid.SampledFrom(late).Draw(t, "latepos")
+	}
+	return rapid.SampledFrom(early).Draw(t, "earlypos")
+}
 
 func c18Gen(t *rapid.T) c18Case {
 	var c c18Case
+	cat := rapid.SampledFrom([]string{"none", "byte", "byte", "byte", "byte", "byte", "byte", "struct", "struct", "struct", "struct", "struct", "struct"}).Draw(t, "cat")
 	c.Kind = rapid.SampledFrom([]int{0, 0, 0, 1, 1, 2, 3, 4, 5, 6, 7, 7, 8}).Draw(t, "kind")
 	c.Name = rapid.StringMatching(`[a-z0-9]{1,8}`).Draw(t, "name")
 	c.Rev = rapid.SampledFrom([]int{0, 0, 1, 2, 7, 10}).Draw(t, "rev")
@@ -769,8 +855,12 @@ func c18Gen(t *rapid.T) c18Case {
 	c.Marker = rapid.IntRange(0, len(c18Markers)-1).Draw(t, "marker")
 	c.Pk1Fixed = rapid.Bool().Draw(t, "pk1fixed")
 	c.Note = rapid.SampledFrom([]string{"", "", "plain", "with: colon", "é ü", "multi\nline\nvalue"}).Draw(t, "note")
-
-	cat := rapid.SampledFrom([]string{"none", "byte", "byte", "byte", "byte", "byte", "struct", "struct", "struct", "struct", "struct"}).Draw(t, "cat")
+	if cat == "byte" && rapid.IntRange(0, 3).Draw(t, "loose") != 0 {
+		// free-form types: most content mutants still decode
+		c.Kind = rapid.IntRange(0, 2).Draw(t, "loosekind")
+		c.Body = rapid.SampledFrom([]string{"", "body text of some length", "two\nlines\n"}).Draw(t, "loosebody")
+		c.Note = rapid.SampledFrom([]string{"", "a plain note", "multi\nline\nvalue"}).Draw(t, "loosenote")
+	}
 	good := []int{0, 1, 2, 3, 4, 5}
 	if c18Kinds[c.Kind].canonicalOnly {
 		good = []int{0, 1, 3}
@@ -790,14 +880,22 @@ func c18Gen(t *rapid.T) c18Case {
 	switch cat {
 	case "none":
 	case "byte":
+		if rapid.IntRange(0, 7).Draw(t, "sigoctet") == 0 {
+			c.Mut = c18Mut{Cat: "sig-octet",
+				Op:  rapid.SampledFrom([]int{0, 0, 0, 0, 0, 0, 1, 2}).Draw(t, "sop"),
+				Pos: rapid.IntRange(0, 4095).Draw(t, "spos"),
+				Val: rapid.IntRange(0, 255).Draw(t, "sval"),
+			}
+			break
+		}
 		c.Mut = c18Mut{Cat: "byte",
 			Op:     rapid.SampledFrom([]int{0, 0, 0, 1, 1, 2, 3}).Draw(t, "op"),
-			Region: rapid.SampledFrom([]int{0, 0, 1, 1, 2}).Draw(t, "region"),
+			Region: rapid.SampledFrom([]int{0, 0, 0, 1, 1, 1, 1, 2}).Draw(t, "region"),
 			Pos:    rapid.IntRange(0, 4095).Draw(t, "pos"),
-			Val:    rapid.IntRange(0, 255).Draw(t, "val"),
+			Val:    rapid.OneOf(rapid.IntRange(0, 255), rapid.SampledFrom([]int{'a', 'Z', '0', '9', '-', '_', ' ', ':', '\n', '=', '/', '+'})).Draw(t, "val"),
 		}
 	default:
-		switch rapid.SampledFrom([]string{"signer", "clock", "clock", "ts", "ts", "constraints", "swap-sig", "wrong-key-named", "raw-resign", "authority-text", "sign-key-text", "mix"}).Draw(t, "defect") {
+		switch rapid.SampledFrom([]string{"signer", "signer", "clock", "clock", "clock", "ts", "ts", "ts", "constraints", "constraints", "swap-sig", "swap-sig", "wrong-key-named", "wrong-key-named", "raw-resign", "authority-text", "sign-key-text", "mix"}).Draw(t, "defect") {
 		case "signer":
 			if c18Kinds[c.Kind].canonicalOnly {
 				c.Signer = rapid.SampledFrom([]int{6, 8}).Draw(t, "badsigner")
@@ -805,7 +903,12 @@ func c18Gen(t *rapid.T) c18Case {
 				c.Signer = rapid.IntRange(6, 9).Draw(t, "badsigner")
 			}
 		case "clock":
-			c.Now = rapid.SampledFrom(c18AnyNow).Draw(t, "badnow")
+			c18Windowed(t, &c)
+			if c.Earliest && c18Facts[c18Signers[c.Signer].key].until.IsZero() {
+				// only an end of validity can be missed in this mode
+				c.Signer = 3
+			}
+			c.Now = c18BadTime(t, &c, c18EarlyNow, c18LateNow, c.Earliest)
 		case "ts":
 			if !c18Kinds[c.Kind].timestamped {
 				c.Kind = rapid.SampledFrom([]int{3, 5, 6, 7, 8}).Draw(t, "tskind")
@@ -813,13 +916,16 @@ func c18Gen(t *rapid.T) c18Case {
 					c.Signer = 3
 				}
 			}
-			c.Ts = rapid.SampledFrom(c18AnyTs).Draw(t, "badts")
+			c18Windowed(t, &c)
+			c.Ts = c18BadTime(t, &c, c18EarlyTs, c18LateTs, false)
 		case "constraints":
 			c.Signer = 4
 			c.Kind = rapid.SampledFrom([]int{0, 0, 0, 1, 1, 2, 7}).Draw(t, "ckind2")
+			c.Marker = rapid.SampledFrom([]int{0, 3, 4, 5, 6}).Draw(t, "cmarker2")
+			c.Pk1Fixed = false
 		case "mix":
-			c.Now = rapid.SampledFrom(c18AnyNow).Draw(t, "badnow")
-			c.Ts = rapid.SampledFrom(c18AnyTs).Draw(t, "badts")
+			c.Now = rapid.SampledFrom(append(append(append([]c18Time{}, c18ValidNow...), c18EarlyNow...), c18LateNow...)).Draw(t, "anynow")
+			c.Ts = rapid.SampledFrom(append(append(append([]c18Time{}, c18ValidTs...), c18EarlyTs...), c18LateTs...)).Draw(t, "anyts")
 			c.Signer = rapid.IntRange(0, len(c18Signers)-1).Draw(t, "anysigner")
 			if c18Kinds[c.Kind].canonicalOnly {
 				c.Kind = 0
@@ -844,7 +950,7 @@ func TestVerifC18Accept(t *testing.T) {
 		ID: "C18", Engine: "accept",
 		Gen:             c18Gen,
 		Run:             c18Run,
-		Floors:          map[string]float64{"byte-decodes": 0.30, "structural": 0.30, "expect-accept": 0.08, "byte-in-signature": 0.08, "byte-in-content": 0.12, "clock-on-boundary": 0.2, "earliest-time-mode": 0.1},
+		Floors:          map[string]float64{"byte-decodes": 0.30, "structural": 0.30, "expect-accept": 0.08, "byte-in-signature": 0.08, "byte-in-content": 0.04, "clock-on-boundary": 0.2, "earliest-time-mode": 0.1},
 		NonTrivialFloor: 0.6,
 	})
 }
